@@ -29,6 +29,10 @@ def main():
         fb = [s for m in ctx.translator.values() for s in m["sites"] if s["status"] != "translated"]
         for s in fb:
             ctx.note(f"translator fallback at {s['site']}: {s['detail']}")
+        # a site the translator can no longer read, in a generated module this property's theorems or model depend on: the tie of
+        # the model to that part of the source is lost (strict rule, DESIGN 0.1); reported unless a concrete violation is found
+        mine = core.gen_closure([f"Props/{prop}.v"] + [t[:-1] if t.endswith(".vo") else t for t in getattr(mod, "RUN_TARGETS", [])])
+        lost = [(m, s) for m, v in ctx.translator.items() if m in mine for s in v["sites"] if s["status"] != "translated"]
         # the model and its entry points (no proofs inside): needed by the correspondence
         model_ok = True
         run_targets = getattr(mod, "RUN_TARGETS", [])
@@ -48,12 +52,18 @@ def main():
         lock.share()
         try:
             mod.run(ctx)
-        except Exception:  # a crash of the harness itself is a broken check, not a violation
-            traceback.print_exc()
-            core.write_evidence(ctx, getattr(mod, "TRUSTED", None))
-            print("CHECK BROKEN: harness crashed")
-            sys.exit(2)
+        except Exception:  # noqa: BLE001
+            # The exploration could not be completed (typically: the implementation now behaves in a way the harness did not
+            # foresee).  The property is then no longer shown to hold: reported as a violation without a failing input, with
+            # the traceback as the replay, unless the part that did run already found concrete violations.
+            tb = traceback.format_exc()
+            print(tb)
+            ctx.violation("the exploration crashed before completing", {"traceback": tb[-4000:]}, has_input=False)
         # verdict
+        if not ctx.violations:
+            for m, st in lost[:3]:
+                ctx.violation("the translator can no longer read a source site this property's model is generated from",
+                              {"generated_module": f"coq/Gen/{m}.v", "site": st["site"], "detail": st["detail"]}, has_input=False)
         if not ctx.violations:
             if not ctx.proof["ok"]:
                 ctx.violation("proof obligation no longer checks", {
